@@ -138,7 +138,7 @@ Slice ==
 (* --- several conditions -------------------------------------------------- *)
 \* conds: sequence of [bd, f]; a dof on several faces may take the value of any of them
 BcsCase(s, conds, shorthand) ==
-  LET faces == [q \in 1..Len(conds) |-> SeqRange(FaceDofs(s, conds[q].bd))]
+  LET faces == Force([q \in 1..Len(conds) |-> SeqRange(FaceDofs(s, conds[q].bd))])
       U     == UNION {faces[q] : q \in 1..Len(conds)}
       us    == SortedSeq(U)
       ents  == Force([k \in 1..Len(us) |->
